@@ -23,3 +23,9 @@ pub fn constant_lhs(lhs: Instruction, rhs: Instruction) -> Instruction {
         (lhs, rhs) => Instruction::And(Box::new(lhs), Box::new(rhs)),
     }
 }
+
+/// control for R-CHILDKEEP: children filtered while "folding"
+pub fn filter_children(mut children: Vec<i64>, keep: i64) -> Vec<i64> {
+    children.retain(|c| *c == keep);
+    children
+}
